@@ -23,6 +23,11 @@ fn main() {
     if args.is_empty() {
         usage();
     }
+    if args[0] == "--cold-body" {
+        let n = |i: usize, d: usize| args.get(i).and_then(|s| s.parse().ok()).unwrap_or(d);
+        props::c20::cold_body(n(1, 1), n(2, 0));
+        return;
+    }
     if args[0] == "--race-body" {
         let n = |i: usize, d: usize| args.get(i).and_then(|s| s.parse().ok()).unwrap_or(d);
         props::c20::race_body(n(1, 0), n(2, 1));
